@@ -292,7 +292,7 @@ impl Request {
             if let Some(key) = RequestHeader::from_bytes_ignore_case(key_bytes) {
                 self.headers.append(key, value);
             } else {
-                self.headers.insert_custom(Slice::from_bytes(key_bytes), value)
+                self.headers.append_custom(Slice::from_bytes(key_bytes), value)
             }
         }
 
